@@ -89,7 +89,7 @@ def attenuation(ctx):
     u = U.uri_mod()
     ctx.correspondence("attenuation-vs-model")
     terms, info = [], []
-    n = ctx.n(90, 720)
+    n = ctx.n(72, 720)
     for i in range(n):
         r = ctx.rng("att", i)
         kind = U.FILE_KINDS[i % 9]
@@ -195,7 +195,7 @@ def prefixes(ctx):
     u = U.uri_mod()
     ctx.correspondence("prefix-and-context-vs-model")
     terms, info = [], []
-    n = ctx.n(63, 450)
+    n = ctx.n(45, 450)
     for i in range(n):
         r = ctx.rng("pre", i)
         kind = U.FILE_KINDS[i % 9]
@@ -260,7 +260,7 @@ def unknown_nodes(ctx):
     ctx.correspondence("unknown-node-vs-model")
     terms, info = [], []
     nm = NodeMaker(None, None, None, None, None, {"k": 3, "n": 10}, None, None)
-    n = ctx.n(140, 1300)
+    n = ctx.n(110, 1300)
     for i in range(n):
         r = ctx.rng("unk", i)
 
@@ -369,7 +369,7 @@ def histories(ctx):
     def maker():
         return NodeMaker(None, None, None, None, None, {"k": 3, "n": 10}, None, None)
     terms, info = [], []
-    n = ctx.n(27, 180)
+    n = ctx.n(18, 180)
     for i in range(n):
         r = ctx.rng("hist", i)
         kind = U.FILE_KINDS[i % 9]
@@ -498,7 +498,7 @@ def typed_entry_points(ctx):
             fields = (fields[0][:16],)
         c = U.make_cap(kind, fields, is_dir)
         base = c.to_string()
-        strings = [base, b"ro." + base, b"imm." + base]
+        strings = [base, (b"ro." + base, b"imm." + base)[i % 2]] if not ctx.search and ctx.tier == "quick" else [base, b"ro." + base, b"imm." + base]
         if i % 6 == 5:
             strings.append(r.choice(FUTURE[:4]))
         for s in strings:
